@@ -55,6 +55,20 @@ def pmTag : PositionMatch → String
 /-- positions for which the property speaks: finite, and inside the range where `(double)n` is exact -/
 def inScope (p : Float) : Bool := p.isFinite && p.abs < 4.0e15
 
+/-- axes for which the property speaks: coordinates x_0 < x_1 < … — a sampled axis whose interval is not finite (x_0 = 0 · inf is not
+    a number) or is absorbed by the offset (x_1 = x_0) is none; on those only the model's prediction is compared -/
+def axisInScope : AxisDesc → Bool
+  | .sampled si off _ => si.isFinite && off.isFinite && off < si + off
+  | _ => true
+
+/-- … and positions whose index on a sampled axis stays inside the range where `(double)n` is exact (an interval of 5e-324 puts the
+    index of the position 1.0 beyond every index type) -/
+def posInScope (ax : AxisDesc) (p : Float) : Bool :=
+  inScope p && axisInScope ax &&
+  match ax with
+  | .sampled si off _ => ((p - off) / si).abs < 4.0e15
+  | _ => true
+
 def handle (st : DState) (op : String) (args impl : List String) : Option (DState × Out) :=
   match op with
   | "axis_sampled" => some <|
@@ -102,7 +116,7 @@ def handle (st : DState) (op : String) (args impl : List String) : Option (DStat
           match impl with
           | ["ok", t] =>
             match parseIdx t with
-            | some ri => if inScope p then [(s!"index_rule_{pmTag m}", relIndex (specAxis st.axis) m p ri (kernel st.axis p .lessOrEqual))] else []
+            | some ri => if posInScope st.axis p then [(s!"index_rule_{pmTag m}", relIndex (specAxis st.axis) m p ri (kernel st.axis p .lessOrEqual))] else []
             | none => [("result_parses", false)]
           | _ => [("conversion_does_not_throw", false)]
         judge tag ["ok", fmtIdx r] impl rules
@@ -120,7 +134,7 @@ def handle (st : DState) (op : String) (args impl : List String) : Option (DStat
           | ["ok", t] =>
             match parsePair t with
             | some ri =>
-              if inScope s && inScope e then
+              if posInScope st.axis s && posInScope st.axis e then
                 [("pair_rule", relPair (specAxis st.axis) rm s e ri (kernel st.axis s .greaterOrEqual) (kernel st.axis e rm.endMatch))]
               else []
             | none => [("result_parses", false)]
@@ -144,7 +158,13 @@ def handle (st : DState) (op : String) (args impl : List String) : Option (DStat
     match args.map parseNat with
     | [some i] =>
       match st.axis with
-      | .sampled si off _ => cmp "posat.sampled" ["ok", fmtF64 (posAt si off i)] impl
+      | .sampled si off _ =>
+        -- a coordinate that is not a number (0 · inf): which of the NaN bit patterns the hardware delivers is not the library's choice
+        let v := posAt si off i
+        let implNaN := match impl with
+          | ["ok", t] => (parseF64 t).any (·.isNaN)
+          | _ => false
+        if v.isNaN && implNaN then .ok "posat.sampled.nan" else cmp "posat.sampled" ["ok", fmtF64 v] impl
       | .range ticks _ =>
         match ticks[i]? with
         | some t => cmp "posat.range" ["ok", fmtF64 t] impl
